@@ -129,14 +129,21 @@ std::string AnalyzerInformation::skipAnalysis(const tinyxml2::XMLDocument &analy
 std::string AnalyzerInformation::getAnalyzerInfoFileFromFilesTxt(std::istream& filesTxt, const std::string &sourcefile, const std::string &cfg, int fsFileId)
 {
     std::string line;
+    std::string partialMatch;
     while (std::getline(filesTxt,line)) {
         AnalyzerInformation::Info filesTxtInfo;
         if (!filesTxtInfo.parse(line))
             continue; // TODO: report error?
-        if (endsWith(sourcefile, filesTxtInfo.sourceFile) && filesTxtInfo.cfg == cfg && filesTxtInfo.fsFileId == fsFileId)
+        if (filesTxtInfo.cfg != cfg || filesTxtInfo.fsFileId != fsFileId)
+            continue;
+        // an entry for exactly this path wins over an entry that only matches the end of the path
+        // ("main.c" must not take the analyzer info of "src/main.c" and vice versa)
+        if (sourcefile == filesTxtInfo.sourceFile)
             return filesTxtInfo.afile;
+        if (partialMatch.empty() && endsWith(sourcefile, filesTxtInfo.sourceFile))
+            partialMatch = filesTxtInfo.afile;
     }
-    return "";
+    return partialMatch;
 }
 
 std::string AnalyzerInformation::getAnalyzerInfoFile(const std::string &buildDir, const std::string &sourcefile, const std::string &cfg, std::size_t fsFileId)
